@@ -455,6 +455,20 @@ impl AssemblyCode {
                         swap_both = true;
                     }
                     // Check CMP and remove the branck if the result is obvious
+                    // (unless another branch follows, which uses the flags of the compare too)
+                    let branch_follows = matches!(
+                        iter.peek(),
+                        Some(AsmLine::Instruction(i3)) if matches!(
+                            i3.mnemonic,
+                            AsmMnemonic::BCC
+                                | AsmMnemonic::BCS
+                                | AsmMnemonic::BEQ
+                                | AsmMnemonic::BNE
+                                | AsmMnemonic::BMI
+                                | AsmMnemonic::BPL
+                        )
+                    );
+                    iter.reset_peek();
                     if let Some(r) = &accumulator {
                         if r.starts_with("#")
                             && i1.mnemonic == AsmMnemonic::CMP
@@ -463,12 +477,15 @@ impl AssemblyCode {
                             // The result IS obvious
                             match i2.mnemonic {
                                 AsmMnemonic::BNE => {
-                                    if *r == i1.dasm_operand && !i2.protected{
+                                    if *r == i1.dasm_operand && !i2.protected && !branch_follows {
                                         remove_both = true;
                                     }
                                 }
                                 AsmMnemonic::BEQ => {
-                                    if immediates_differ(r, &i1.dasm_operand) && !i2.protected {
+                                    if immediates_differ(r, &i1.dasm_operand)
+                                        && !i2.protected
+                                        && !branch_follows
+                                    {
                                         remove_both = true;
                                     }
                                 }
@@ -484,12 +501,15 @@ impl AssemblyCode {
                             // The result IS obvious
                             match i2.mnemonic {
                                 AsmMnemonic::BNE => {
-                                    if *r == i1.dasm_operand && !i2.protected {
+                                    if *r == i1.dasm_operand && !i2.protected && !branch_follows {
                                         remove_both = true;
                                     }
                                 }
                                 AsmMnemonic::BEQ => {
-                                    if immediates_differ(r, &i1.dasm_operand) && !i2.protected {
+                                    if immediates_differ(r, &i1.dasm_operand)
+                                        && !i2.protected
+                                        && !branch_follows
+                                    {
                                         remove_both = true;
                                     }
                                 }
@@ -505,12 +525,15 @@ impl AssemblyCode {
                             // The result IS obvious
                             match i2.mnemonic {
                                 AsmMnemonic::BNE => {
-                                    if *r == i1.dasm_operand && !i2.protected {
+                                    if *r == i1.dasm_operand && !i2.protected && !branch_follows {
                                         remove_both = true;
                                     }
                                 }
                                 AsmMnemonic::BEQ => {
-                                    if immediates_differ(r, &i1.dasm_operand) && !i2.protected {
+                                    if immediates_differ(r, &i1.dasm_operand)
+                                        && !i2.protected
+                                        && !branch_follows
+                                    {
                                         remove_both = true;
                                     }
                                 }
